@@ -11,6 +11,7 @@ from ..report import Run, Finding, rel
 from ..common import lib_module, configs_for, need_fn
 from ..build import AnalysisBroken
 from ..ival import Intervals
+from ..ir import type_bits
 
 PROP = "C07"
 EXP_RANGE = (-1022, 1023)       # unbiased exponent of a normal IEEE-754 double
@@ -154,6 +155,41 @@ def analyse(mod, run, label):
         run.check(guarded, "T3-exponent-delta-fits-byte", {"at": loc(i)},
                   Finding("T3-exponent-delta-truncated", "varintFloatEncode", "exp-delta", "trunc", "the exponent delta at %s ranges over [0, %d] for normal doubles but is stored in one byte without a range test: arrays mixing magnitudes more than 2^255 apart decode to different values" % (loc(i), rng[1]), loc=loc(i)))
     if n3 < 1: raise AnalysisBroken("varintFloatEncode: common-exponent delta store not found")
+    # ---- T4: varintFloatCompose assembles a value for every exponent of a normal double ----
+    comp = need_fn(mod, "varintFloatCompose")
+    ek = comp.param_index("exponent"); mk = comp.param_index("mantissa")
+    if ek is None or mk is None: raise AnalysisBroken("varintFloatCompose: parameters exponent / mantissa not found")
+    ebits = type_bits(comp.params[ek]["t"]) or 16
+    asm = [b for b in comp.blocks if any(i.op == "shl" and i.ops[1]["k"] == "int" and int(i.ops[1]["v"]) == 52 and i.ops[0]["k"] == "inst" for i in b.insts)]
+    if len(asm) != 1: raise AnalysisBroken("varintFloatCompose: the block that shifts the biased exponent into place was not found")
+    A = asm[0]
+    rets = comp.rets()
+    retphi = comp.imap[rets[0].ops[0]["v"]] if len(rets) == 1 and rets[0].ops[0]["k"] == "inst" and comp.imap[rets[0].ops[0]["v"]].op == "phi" else None
+    if retphi is None: raise AnalysisBroken("varintFloatCompose: single return phi expected")
+    comp.dom()
+    def other_returns(lo, hi):
+        """incoming blocks of the return phi, other than the assembling path, reachable for exponents in [lo, hi] (signed) and a non-zero mantissa"""
+        iv = Intervals(comp, {mk: 1}, None)
+        iv.arg_ranges = {ek: (lo, hi) if lo >= 0 else (lo + (1 << ebits), hi + (1 << ebits))}
+        dead = iv.dead_edges(); seen = set(); work = [comp.entry]
+        while work:
+            b = work.pop()
+            if b.id in seen: continue
+            seen.add(b.id)
+            for sx in b.succs:
+                if (b.id, sx.id) not in dead: work.append(sx)
+        return [inc["b"] for inc in retphi["incoming"] if inc["b"] in seen and (inc["b"], retphi.block.id) not in dead and not comp.dominates(A.id, inc["b"])]
+    def lost(lo, hi, depth=0):
+        o = other_returns(lo, hi)
+        if not o: return []
+        if lo == hi: return [lo]
+        mid = (lo + hi) // 2
+        return lost(lo, mid, depth + 1) + lost(mid + 1, hi, depth + 1)
+    flushed = lost(-1022, -1) + lost(0, 1023)
+    run.check(not flushed, "T4-every-normal-exponent-is-assembled", {"exponents": "[-1022, 1023]", "assembling_block": A.id},
+              Finding("T4-normal-exponent-flushed", comp.name, "exponent", "clamp",
+                      "varintFloatCompose does not assemble a value for the normal exponent(s) %s (non-zero mantissa): such doubles decode as zero or infinity" % (
+                          ", ".join(map(str, flushed[:6])) + (" ..." if len(flushed) > 6 else "")), loc="%s:%s" % (rel(comp.file), comp.line)))
     return len(tab), mb
 
 
@@ -167,4 +203,6 @@ def run(tier):
     return run.finish(
         "T1: the fcmp decision chain of varintFloatEncodeAuto is read as a table error-interval -> precision and compared with 2^-mantissaBits "
         "from the header's switch. T2: truncateMantissa is evaluated over the interval of normal 53-bit mantissas for each lossy width; the "
-        "result must fit the field. T3: the common-exponent delta must be range-guarded before it is truncated to a byte.")
+        "result must fit the field. T3: the common-exponent delta must be range-guarded before it is truncated to a byte. T4: interval evaluation of "
+        "varintFloatCompose's clamps over the exponents of normal doubles (bisected down to single exponents where a compare is undecided) shows "
+        "that only the assembling path returns.")
